@@ -42,7 +42,7 @@ func (a *otherAddr) Network() string { return "other" }
 func (a *otherAddr) String() string  { return "other:" + strconv.Itoa(a.id) }
 
 type srvEvent struct {
-	kind byte // 'd' datagram, 'e' read error, 'c' Close while reading
+	kind byte // 'd' datagram, 'e' read error, 'c' Close while reading, 'k' datagram whose read completes during Close
 	data []byte
 	peer net.Addr
 }
@@ -86,6 +86,8 @@ func eventString(e srvEvent) string {
 		return "e"
 	case 'c':
 		return "c"
+	case 'k':
+		return "k:" + hx(e.data) + ":" + peerCanon(e.peer)
 	}
 	return "d:" + hx(e.data) + ":" + peerCanon(e.peer)
 }
@@ -116,6 +118,8 @@ func parseScenario(args []string) (wait int, evs []srvEvent) {
 			evs = append(evs, srvEvent{kind: 'c'})
 		case "d":
 			evs = append(evs, srvEvent{kind: 'd', data: unhx(t[1]), peer: parsePeerToks(t[2:])})
+		case "k":
+			evs = append(evs, srvEvent{kind: 'k', data: unhx(t[1]), peer: parsePeerToks(t[2:])})
 		default:
 			panic("harness: bad event " + a)
 		}
@@ -165,6 +169,9 @@ func (c *srv_scriptConn) ReadFrom(b []byte) (int, net.Addr, error) {
 	}
 	if c.closed {
 		c.finished = true
+		if c.pos > 0 && c.events[c.pos-1].kind == 'k' {
+			c.scriptErr = true // the scripted Close: this failing read is part of the history
+		}
 		c.bump()
 		c.mu.Unlock()
 		return 0, nil, net.ErrClosed
@@ -203,6 +210,27 @@ func (c *srv_scriptConn) ReadFrom(b []byte) (int, net.Addr, error) {
 		c.bump()
 		c.mu.Unlock()
 		return 0, nil, net.ErrClosed
+	}
+	if ev.kind == 'k' {
+		// the datagram is in the socket and the read is about to complete when the
+		// application calls Close: Close runs to its end (the connection is closed),
+		// THEN this read returns its datagram - read successfully, so it is the
+		// handler's; the next read finds the connection closed (seeded change C14-11)
+		c.mu.Unlock()
+		select {
+		case c.closeReq <- struct{}{}:
+		default:
+		}
+		t := time.NewTimer(10 * time.Second)
+		select {
+		case <-c.closeCh:
+		case <-t.C:
+			c.mu.Lock()
+			c.closeLate = true
+			c.mu.Unlock()
+		}
+		t.Stop()
+		c.mu.Lock()
 	}
 	// a reader may use all of b as scratch space: make a reused buffer visible
 	for i := range b {
@@ -316,13 +344,13 @@ func runScenario(v6 bool, wait int, evs []srvEvent) *scenarioResult {
 		// first an unclaimed read, then (second dispatch of the same datagram) a claimed one
 		for _, wantClaimed := range []bool{false, true} {
 			for i, e := range evs {
-				if e.kind == 'd' && claimed[i] == wantClaimed && samePeerObj(e.peer, peer) {
+				if (e.kind == 'd' || e.kind == 'k') && claimed[i] == wantClaimed && samePeerObj(e.peer, peer) {
 					claimed[i] = true
 					return i, true
 				}
 			}
 			for i, e := range evs {
-				if e.kind == 'd' && claimed[i] == wantClaimed && byPort(e) {
+				if (e.kind == 'd' || e.kind == 'k') && claimed[i] == wantClaimed && byPort(e) {
 					claimed[i] = true
 					return i, false
 				}
@@ -341,7 +369,7 @@ func runScenario(v6 bool, wait int, evs []srvEvent) *scenarioResult {
 			// reads completed when this datagram was delivered: those before it and itself
 			before := 0
 			for i := 0; i <= seq; i++ {
-				if evs[i].kind == 'd' {
+				if evs[i].kind == 'd' || evs[i].kind == 'k' {
 					before++
 				}
 			}
@@ -849,7 +877,11 @@ func genScenario(r *Rng, v6, thorough, inDomainOnly bool) (wait int, evs []srvEv
 			tagset["malformed"] = true
 		}
 		ev := srvEvent{kind: 'd', data: data, peer: peer}
-		if errSeen {
+		if !errSeen && r.Chance(1, 25) {
+			ev.kind = 'k'
+			errSeen = true
+			tagset["close-during-completing-read"] = true
+		} else if errSeen {
 			tagset["reads-after-error"] = true
 		}
 		evs = append(evs, ev)
@@ -944,7 +976,7 @@ func expectC14(v6 bool, evs []srvEvent) (exp []expInv, wantExit string, undecoda
 	undecodable = map[int]bool{}
 	wantExit = "blocked"
 	for i, e := range evs {
-		if e.kind != 'd' {
+		if e.kind != 'd' && e.kind != 'k' {
 			wantExit = "returned"
 			break
 		}
@@ -976,6 +1008,12 @@ func expectC14(v6 bool, evs []srvEvent) (exp []expInv, wantExit string, undecoda
 				exp = append(exp, expInv{seq: i, canon: canon4(m), ev: e})
 			}
 		}()
+		if e.kind == 'k' {
+			// the connection was closed while this datagram was being read: it is the
+			// last one read, the next read fails
+			wantExit = "returned"
+			break
+		}
 	}
 	return
 }
@@ -1005,7 +1043,7 @@ func checkC14(v6 bool, wait int, evs []srvEvent) (what, class string) {
 	firstErr := len(evs)
 	for i, e := range evs {
 		if e.kind != 'd' {
-			firstErr = i
+			firstErr = i // for 'k': the datagram itself was read, everything behind it was not
 			break
 		}
 	}
@@ -1112,7 +1150,7 @@ func oracleC14(r *Rng, n int, thorough bool, seeds []string) *OracleResult {
 		res.Evaluations++
 		line := scenarioLine(v6, wait, evs)
 		for _, e := range evs {
-			if e.kind == 'd' && len(e.data) > 0 {
+			if (e.kind == 'd' || e.kind == 'k') && len(e.data) > 0 {
 				seen[hashStr(line)] = struct{}{}
 				break
 			}
